@@ -340,6 +340,9 @@ def gen(ctx):
             lv = levels[(k * 3 + rng.randrange(10)) % 10] if per < 10 else k
             cases.append(('gabi', [src, lv, rng.choice(['all', 'some']), rng.getrandbits(32)]))
             cases.append(('zgnu', [src, lv, rng.choice(['all', 'some', 'shrink']), rng.getrandbits(32)]))
+    # keep-debug: contents of the sections the DWARF reader never asks for are dropped (SHT_NOBITS)
+    for src in srcs:
+        cases.append(('keepdebug', [src]))
     # debug links
     for name in seeds:
         src = 'seed:' + name
@@ -666,6 +669,33 @@ def h_reencode(ctx, kind, a):
         d_o = impl_dump(orig, None)
         ctx.record(kind + '_dump', a, impl=impl_dump(timg, None), spec=d_o, model=None, in_domain=d_o[0] != 'err',
                    nontrivial=nt, key='C11/%s-dump-differs' % kind)
+
+
+def h_keepdebug(ctx, kind, a):
+    """T_keep_debug: every section the Coq predicate `kept` does not keep becomes SHT_NOBITS"""
+    src = a[0]
+    elf = _elf(_load(src))
+    orig = elf.img
+    if len(orig) > MODEL_MAX:
+        raise Skip('large')
+    (kept,) = yield [['kept', orig]]
+    if kept[0] != 'ok' or len(kept[1]) != len(elf.secs):
+        raise Skip('not readable by the model')
+    edits = {i: {'type': 8} for i, k in enumerate(kept[1]) if not k and i != elf.e_shstrndx and elf.secs[i]['sh_type'] != 8}
+    timg = U.rewrite(elf, edits)
+    tbl = yield from _tbl_for([timg, orig])
+    (m, s_t), (mo, s_o), s_coq = yield [_view_req(timg, None, 1, 0, False, tbl), _view_req(orig, None, 1, 0, False, tbl),
+                                        ['t_keep', orig, tbl]]
+    spec = canon_spec(s_o)
+    indom = spec != 'rejected'
+    _record_view(ctx, kind, a, impl_view(timg, None, True, False), m, spec, in_domain=indom, nontrivial=len(edits) > 0,
+                 detail={'sections': len(edits)})
+    if indom:
+        ctx.record(kind + '_builder', a, impl=canon_spec(s_t), spec=canon_spec(s_coq), model=None, in_domain=True,
+                   nontrivial=len(edits) > 0, key='C11/harness-rewriter-differs-from-coq-transform')
+    d_o = impl_dump(orig, None)
+    ctx.record(kind + '_dump', a, impl=impl_dump(timg, None), spec=d_o, model=None, in_domain=d_o[0] != 'err',
+               nontrivial=len(edits) > 0, key='C11/keepdebug-dump-differs')
 
 
 def _rname(elf, k):
@@ -1027,6 +1057,6 @@ def h_linkparse(ctx, kind, a):
     ctx.record(kind, a, impl=impl, spec=spec, model=model, in_domain=complete, nontrivial=True, key='C11/debuglink-parse')
 
 
-HANDLERS = {'plain': h_plain, 'presence_file': h_presence_file, 'gabi': h_reencode, 'zgnu': h_reencode,
+HANDLERS = {'plain': h_plain, 'keepdebug': h_keepdebug, 'presence_file': h_presence_file, 'gabi': h_reencode, 'zgnu': h_reencode,
             'objcopy': h_objcopy, 'link': h_link, 'link_path': h_link_path, 'sup': h_sup, 'presence': h_presence,
             'synth': h_synth, 'zbad': h_bad, 'gbad': h_bad, 'crc': h_crc, 'crc_rand': h_crc, 'linkparse': h_linkparse}
